@@ -91,6 +91,81 @@ func launcher(n int, out chan, wg *sync.WaitGroup) {
 func upper(s string) string {
     return strings.ToUpper(s)
 }
+
+func sq(n int) int {
+    return n * n
+}
+
+func sqsum(a int, b int) int {
+    return sq(a) + b
+}
+
+// spawnA launches its workers, waits until every one of them is running (ready handshake:
+// each worker's prologue has finished with the launcher's scope) and returns while they
+// still run; the workers keep calling Ego functions, the caller goes on declaring variables.
+func spawnA(count int, base int, m int, out chan, wg *sync.WaitGroup) {
+    ready := make(chan, count)
+    for i := 0; i < count; i++ {
+        wg.Add(1)
+        go func(id int) {
+            ready <- true
+            t := 0
+            for k := 1; k <= m; k++ {
+                t = t + sqsum(k, id) + base
+            }
+            out <- t
+            wg.Done()
+        }(i)
+    }
+    for i := 0; i < count; i++ {
+        ok := <-ready
+    }
+}
+
+func spawnB(count int, base int, m int, out chan, wg *sync.WaitGroup) {
+    pad := base + 1
+    {
+        inner := pad - 1
+        spawnA(count, inner, m, out, wg)
+    }
+}
+
+func spawnC(count int, base int, m int, out chan, wg *sync.WaitGroup) {
+    for once := 0; once < 1; once++ {
+        spawnB(count, base + once, m, out, wg)
+    }
+}
+`
+
+// the body of a "helper" unit: # = unit number, @F the helper, @W workers, @M calls per worker, @B base, @R rounds
+const c08HelperUnit = `    hz# := @B
+    for hr# := 0; hr# < @R; hr#++ {
+        ha# := hz# + hr#
+        @F(@W, ha#, @M, res, &wg)
+        hb# := ha# + 1
+        hc# := hb# * 2
+        hd# := hc# - hb#
+        {
+            he# := hd# + 1
+            hf# := upper("ab")
+            if hf# == "AB" {
+                he# = he# + 1
+            }
+            mu.Lock()
+            acc = acc + he#
+            mu.Unlock()
+        }
+        hg# := hd# + hc#
+        hh# := hg# - ha#
+        mu.Lock()
+        acc = acc + hh#
+        mu.Unlock()
+    }
+    hi# := hz# + 1
+    hj# := hi# + 1
+    mu.Lock()
+    acc = acc + hj# - hz#
+    mu.Unlock()
 `
 
 type c08Acc struct {
@@ -168,6 +243,45 @@ func c08Unit(a *c08Acc, kind string, r *rand.Rand) {
 		a.sum += w*3 + 1
 		a.nres += w + 1
 		a.gor += w
+	case "helper", "helper-heavy":
+		// goroutines launched from a helper function 1..3 calls below main that returns while they run; the
+		// workers enter Ego functions in a loop (ArgCheck -> GetAnyScope walks the RAW parent chain: with deep
+		// scope that is the helper's frame and then main's own block tables) while main declares fresh
+		// variables in exactly those blocks.  Two rounds, so that workers of round 0 overlap round 1's launch.
+		fn := []string{"spawnA", "spawnB", "spawnC"}[r.Intn(3)]
+		m := 2 + r.Intn(4) // calls per worker: small, a deep-scope walk costs ~20 trace events per call
+
+		if w > 3 {
+			w = 3
+		}
+
+		b := r.Intn(9)
+		rounds := 2
+
+		if kind == "helper-heavy" {
+			// same shape, sized for the race detector (many function entries per worker overlapping many
+			// declarations of the launcher); its trace would be ~100000 events, so it only runs in the race pass
+			w, m, rounds = 4, 18+r.Intn(8), 4
+		}
+
+		a.emit("%s", strings.NewReplacer("#", fmt.Sprint(u), "@B", fmt.Sprint(b), "@R", fmt.Sprint(rounds), "@F", fn,
+			"@W", fmt.Sprint(w), "@M", fmt.Sprint(m)).Replace(c08HelperUnit))
+		for rd := 0; rd < rounds; rd++ {
+			ha := b + rd
+			hb := ha + 1
+			hc := hb * 2
+			hd := hc - hb
+			a.acc += hd + 2       // he
+			a.acc += hd + hc - ha // hh
+			for i := 0; i < w; i++ {
+				for k := 1; k <= m; k++ {
+					a.sum += k*k + i + ha
+				}
+			}
+		}
+		a.acc += 2
+		a.nres += w * rounds
+		a.gor += w * rounds
 	case "busy":
 		a.emit("    for q := 0; q < %d; q++ {\n        z := q * 2\n        mu.Lock()\n        acc = acc + z\n        mu.Unlock()\n    }\n"+
 			"    s%d := upper(\"ab\")\n    if s%d == \"AB\" {\n        mu.Lock()\n        acc = acc + 1\n        mu.Unlock()\n    }\n", n, u, u)
@@ -200,10 +314,15 @@ func c08Unit(a *c08Acc, kind string, r *rand.Rand) {
 	}
 }
 
-var c08Kinds = []string{"named", "closure", "block", "nested", "pipeline", "launcher", "busy", "global", "ptr"}
+var c08Kinds = []string{"named", "closure", "block", "nested", "pipeline", "launcher", "busy", "global", "ptr", "helper"}
 var c08EscapeKinds = []string{"escape-arg", "escape-chan"}
 
-func c08Build(id string, kinds []string, r *rand.Rand) c08Prog {
+// c08Build composes one program.  deep = the value of ego.runtime.deep.scope the program runs with: true is what
+// `ego run`, `ego test` and the server set (profile defaults): a function's scope is then a child of its call
+// frame's table, whose parent is the CALLER's current block, so the raw parent chain of a scope captured in a helper
+// function runs through the private block tables of every caller; false (no profile loaded, as in the compiler's
+// own unit tests) hangs every function scope directly below the file-level table.
+func c08Build(id string, kinds []string, r *rand.Rand, deep bool) c08Prog {
 	a := &c08Acc{}
 	for _, k := range kinds {
 		c08Unit(a, k, r)
@@ -211,6 +330,8 @@ func c08Build(id string, kinds []string, r *rand.Rand) c08Prog {
 
 	var b strings.Builder
 
+	// the scope mode is part of the failing input: c08Run applies p.Deep, the comment line carries it into the replay file
+	fmt.Fprintf(&b, "// verif C08: run with ego.runtime.deep.scope=%v\n", deep)
 	b.WriteString(c08Prelude)
 	fmt.Fprintf(&b, "\nfunc main() {\n    var wg sync.WaitGroup\n    var mu sync.Mutex\n    acc := 0\n    res := make(chan, %d)\n", a.nres+1)
 	b.WriteString(a.body.String())
@@ -218,30 +339,40 @@ func c08Build(id string, kinds []string, r *rand.Rand) c08Prog {
 		"    fmt.Println(\"acc\", acc, \"sum\", sum, \"gtotal\", gtotal)\n}\nmain()\n", a.nres)
 
 	return c08Prog{ID: id, Src: b.String(), Want: fmt.Sprintf("acc %d sum %d gtotal %d\n", a.acc, a.sum, a.gtotal),
-		Units: a.units, Escape: a.escape, Gor: a.gor}
+		Units: a.units, Escape: a.escape, Gor: a.gor, Deep: deep}
 }
 
-// c08Programs: a fixed corpus first (each unit alone, the BUG-94 shapes, the escaping
-// closures), then random compositions of 2..6 units; about one program in eight contains
-// an escaping closure (the known-finding class).
+// c08Programs: a fixed corpus first (each unit alone, the BUG-94 shapes, the deep-scope
+// helper-launch shapes, the escaping closures), then random compositions of 2..6 units, each
+// with a coin-flipped scope mode; about one program in eight contains an escaping closure
+// (the known-finding class).
 func c08Programs() []c08Prog {
 	r := verifh.Rand(8)
 	res := []c08Prog{}
 
 	if only := os.Getenv("VERIF_C08_ONLY"); only != "" {
-		return []c08Prog{c08Build("only", strings.Split(only, ","), r)}
+		return []c08Prog{c08Build("only", strings.Split(only, ","), r, os.Getenv("VERIF_C08_DEEP") != "")}
 	}
 
 	for _, k := range c08Kinds {
-		res = append(res, c08Build("unit-"+k, []string{k}, r))
+		res = append(res, c08Build("unit-"+k, []string{k}, r, false))
 	}
 
-	res = append(res, c08Build("bug94", []string{"block", "block", "busy", "block"}, r))
-	res = append(res, c08Build("mix-a", []string{"launcher", "nested", "busy", "global", "ptr"}, r))
+	res = append(res, c08Build("bug94", []string{"block", "block", "busy", "block"}, r, false))
+	res = append(res, c08Build("mix-a", []string{"launcher", "nested", "busy", "global", "ptr"}, r, false))
+	// deep scope (the CLI default): goroutines launched 1..3 calls below the function that owns the block they can reach
+	res = append(res, c08Build("deep-helper", []string{"helper"}, r, true))
+	res = append(res, c08Build("deep-helper2", []string{"busy", "helper", "helper"}, r, true))
+	res = append(res, c08Build("deep-launcher", []string{"launcher", "busy", "block", "named"}, r, true))
+	res = append(res, c08Build("deep-mix", []string{"nested", "helper", "closure", "pipeline", "global"}, r, true))
+
+	heavy := c08Build("deep-helper-heavy", []string{"helper-heavy", "helper-heavy"}, r, true)
+	heavy.RaceOnly = true
+	res = append(res, heavy)
 
 	if os.Getenv("VERIF_C08_NOESCAPE") == "" {
 		for _, k := range c08EscapeKinds {
-			res = append(res, c08Build("unit-"+k, []string{k, "busy"}, r))
+			res = append(res, c08Build("unit-"+k, []string{k, "busy"}, r, false))
 		}
 	}
 
@@ -258,7 +389,7 @@ func c08Programs() []c08Prog {
 			kinds[r.Intn(m)] = c08EscapeKinds[r.Intn(2)]
 		}
 
-		res = append(res, c08Build(fmt.Sprintf("rand-%d-%03d", verifh.Seed(), i), kinds, r))
+		res = append(res, c08Build(fmt.Sprintf("rand-%d-%03d", verifh.Seed(), i), kinds, r, r.Intn(2) == 0))
 	}
 
 	// An escaping-closure program can end the whole process with Go's fatal "concurrent
